@@ -109,6 +109,8 @@ def verify_function(key, tier='quick', keep_terms=False, discharge=True):
             st.mod_targets = calls.eval_modifies(st, c, env)
             st.frames = [(st.mod_targets, st.fn_alloc0)]
             st.locals = dict(env)
+            if getattr(c, 'ghost_entry', None):
+                E.run_ghost(st, c.ghost_entry)
             outcome = None
             try:
                 E.exec_block(st, body_stmts)
